@@ -215,3 +215,22 @@ class Report:
                   f'discharged; {len(findings)} known finding(s); '
                   f'{len(violations)} violation(s)')
         return code
+
+
+def depend(rep: 'Report', world, module_name: str, rule_prefixes: tuple, as_rule: str, text: str, floor: int = 1):
+    """Re-use rules of another property as *dependency* obligations: the instances of the selected
+    rules are evaluated by that module and recorded here under `as_rule` (construct prefixed with the
+    original rule id).  Known findings of the other property stay known only there; here a failing
+    dependency is a violation of this property too, unless listed for this property."""
+    import importlib
+    mod = importlib.import_module(f'tsa.{module_name}')
+    sub = Report(rep.prop, tier=rep.tier, seed=rep.seed, quiet=True)
+    try:
+        mod.run(world, sub)
+    except AnalysisError as e:
+        raise AnalysisError(f'dependency {module_name}: {e}')
+    rep.rule(as_rule, text, floor=floor)
+    for inst in sub.instances:
+        if inst.rule.startswith(rule_prefixes):
+            rep.check(as_rule, f'{inst.rule}|{inst.construct}', inst.ok, line=inst.line, file=inst.file,
+                      why=inst.why, facts=inst.facts, trivial=inst.trivial)
